@@ -13,19 +13,20 @@ import (
 
 // FarViewStats is what ScriptFarViews observed.
 type FarViewStats struct {
-	Worlds                 int
-	Elections              int // the node became leader of a far-away view through a quorum of votes
-	LockChoices            int // ... and at least one counted vote carried a prepared proof
-	StraddlingLockChoices  int // ... with proofs on both sides of 2^31, 2^32 or 2^63
-	Adoptions              int // a valid NEW_VIEW of a far-away view was adopted
-	PreparedAtFarView      int // the node then held a prepared certificate in that view
-	LockedVotesJudged      int // VIEW_CHANGEs it sent afterwards, judged for the lock they must carry
-	Timeouts               int
-	TimeoutsAtTheLastView  int // election timeouts fired while the node was in view 2^64-1
-	StateSamples           int
-	ProofViewsSeen         map[string]int
-	Samples                []string
-	HandlerStillRunningFor string
+	Worlds                   int
+	Elections                int // the node became leader of a far-away view through a quorum of votes
+	LockChoices              int // ... and at least one counted vote carried a prepared proof
+	StraddlingLockChoices    int // ... with proofs on both sides of 2^31, 2^32 or 2^63
+	Adoptions                int // a valid NEW_VIEW of a far-away view was adopted
+	EarlierRotationAdoptions int // ... by a node that held the same member's proposal of one rotation (n views) earlier
+	PreparedAtFarView        int // the node then held a prepared certificate in that view
+	LockedVotesJudged        int // VIEW_CHANGEs it sent afterwards, judged for the lock they must carry
+	Timeouts                 int
+	TimeoutsAtTheLastView    int // election timeouts fired while the node was in view 2^64-1
+	StateSamples             int
+	ProofViewsSeen           map[string]int
+	Samples                  []string
+	HandlerStillRunningFor   string
 }
 
 var farBoundaries = []uint64{1 << 31, 1 << 32, 1 << 63}
@@ -293,7 +294,25 @@ func ScriptFarViews(seed int64, worlds int, limit time.Duration) ([]Violation, *
 			if best != nil {
 				blk = best.blk
 			}
-			ok = deliver(leader, adv.mkNV(leader, 1, T, votes, spi.HashOf(blk), blk, T))
+			if n64 := uint64(n); rng.Intn(2) == 0 && T >= n64+1 {
+				// the same member led one rotation earlier: the node first adopts its NEW_VIEW for view T-n (fresh block, no proofs) and
+				// holds that proposal when the NEW_VIEW for T arrives
+				T0 := T - n64
+				var votes0 []*ref.Vote
+				for _, id := range byz {
+					votes0 = append(votes0, adv.mkVote(id, inst, 1, T0, nil))
+				}
+				E0 := &spi.Blk{H: 1, Body: fmt.Sprintf("far-%d-one-rotation-earlier", i)}
+				if ok = deliver(leader, adv.mkNV(leader, 1, T0, votes0, spi.HashOf(E0), E0, T0)); ok {
+					st.EarlierRotationAdoptions++
+					if uint64(node.St.View()) != T0 {
+						viol = append(viol, Violation{Prop: "C18", Rule: "new-view-of-the-member-at-view-mod-n-not-adopted", Detail: desc + fmt.Sprintf(": a valid NEW_VIEW for view %d (= T-n) sent by %s = committee[%d] left the node in view %d", T0, leader, T0%n64, uint64(node.St.View())), Step: len(w.Trace)})
+					}
+				}
+			}
+			if ok {
+				ok = deliver(leader, adv.mkNV(leader, 1, T, votes, spi.HashOf(blk), blk, T))
+			}
 			if ok {
 				if uint64(node.St.View()) == T {
 					st.Adoptions++
